@@ -68,7 +68,8 @@ def gen_floats(dist, rng, n):
 def gen_values(dist, seed, full_shape, dtype):
     rng = np.random.default_rng(seed)
     n = int(np.prod(full_shape, dtype=int))
-    dt = np.dtype(dtype)
+    final = np.dtype(dtype)
+    dt = final.newbyteorder('=')                  # generate natively, store in the requested byte order
     if dt.kind == 'f':
         if dt.itemsize == 8:
             a = gen_floats(dist, rng, n)
@@ -96,7 +97,7 @@ def gen_values(dist, seed, full_shape, dtype):
             a = np.zeros(n, dtype=dt)
     else:
         a = (rng.random(n) < {'zeros': 0., 'ones': 1.}.get(dist, 0.5))
-    return np.asarray(a, dtype=dt).reshape(full_shape)
+    return np.asarray(a, dtype=dt).astype(final).reshape(full_shape)
 
 
 def layout(a, how, seed):
@@ -278,7 +279,8 @@ def arr_bits(a):
         with np.errstate(invalid='ignore'):
             a = a.astype(np.float64)
         return a.reshape(-1).view(np.uint64)
-    if k in 'iu':
+    if k in 'iu':                                     # the numeric value first (the array may be byte-swapped)
+        a = a.astype(a.dtype.newbyteorder('='))
         return a.reshape(-1).view('u%d' % a.dtype.itemsize).astype(np.uint64)
     return a.reshape(-1).astype(np.uint64)
 
@@ -290,6 +292,12 @@ def items_of(a, isz):
     return [b[i:i + isz] for i in range(0, len(b), isz)]
 
 
+def is_be(dt):
+    """big-endian storage?"""
+    import sys
+    return dt.itemsize > 1 and (dt.byteorder == '>' or (dt.byteorder == '=' and sys.byteorder == 'big'))
+
+
 def dtype_sx(v):
     if isinstance(v, np.ndarray):
         dt = v.dtype
@@ -297,11 +305,11 @@ def dtype_sx(v):
             return 'f'
         if dt.kind == 'b':
             return 'b'
-        return ['i', dt.itemsize, dt.kind == 'i']
+        return ['i', dt.itemsize, dt.kind == 'i', is_be(dt)]
     if isinstance(v, (bool, np.bool_)):
         return 'b'
     if isinstance(v, (int, np.integer)):
-        return ['i', 8, True]
+        return ['i', 8, True, False]
     return 'f'
 
 
@@ -382,7 +390,7 @@ def step_sx(s):
     if s[0] == 'INT':
         if len(s) > 2:
             dt = np.dtype(s[2])
-            return ['INT', [int(x) for x in s[1]], [dt.itemsize, dt.kind == 'i']]
+            return ['INT', [int(x) for x in s[1]], [dt.itemsize, dt.kind == 'i', is_be(dt)]]
         return ['INT', [int(x) for x in s[1]]]
     if s[0] == 'BOOL':
         return ['BOOL', [int(x) for x in s[1]], int(s[2])]
